@@ -106,3 +106,23 @@ Proof.
   setoid_replace (0 * (1 + scale)) with 0 in H2 by ring.
   lra.
 Qed.
+
+(* ------------------------------------------------------------------ uniqueness from a trivial kernel *)
+Lemma rdot_sub : forall r (x y : vec),
+  rdot r (fun j => x j - y j) == rdot r x - rdot r y.
+Proof. induction r as [|[j a] r IH]; intros; cbn [rdot fst snd]; [ring|]. rewrite IH. ring. Qed.
+
+Lemma unique_solution : forall (A : list row) (n : nat) (x y : vec),
+  (forall v : vec, (forall j, (n <= j)%nat -> v j == 0) -> (forall r, In r A -> rdot r v == 0) ->
+                   forall j, (j < n)%nat -> v j == 0) ->
+  (forall j, (n <= j)%nat -> x j == y j) ->
+  (forall r, In r A -> rdot r x == rdot r y) ->
+  forall j, (j < n)%nat -> x j == y j.
+Proof.
+  intros A n x y Hker Hbnd Hres j Hj.
+  assert (E : x j - y j == 0).
+  { apply (Hker (fun j => x j - y j)); [| |exact Hj].
+    - intros j' Hj'. cbn beta. rewrite (Hbnd j' Hj'). ring.
+    - intros r Hr. rewrite rdot_sub, (Hres r Hr). ring. }
+  lra.
+Qed.
